@@ -7,7 +7,8 @@ import re
 
 A = 'pydoctor/astbuilder.py'
 DEFAULTS = ['1', "'s'", 'None', '(1, 2)', 'a.b', '-1', '[]', 'x or y']
-ANNS = ['int', "'str'", 'List[int]', 'None', 'a.B']
+ANNS = ['int', "'str'", 'List[int]', 'None', 'a.B', "Literal['r', 'w']", "t.Literal['r']", "typing_extensions.Literal['x y']",
+        "'None'", "List['a.B']", "'List[int]'"]
 
 
 def _layouts(maxn):
@@ -90,7 +91,8 @@ def _cases(tier, seed):
 
 def _sig_of_source(src):
     ns = {}
-    pre = 'from typing import List, overload\nclass a:\n    class B: pass\n    b = 0\nx = y = 0\n'
+    pre = ('from typing import List, overload, Literal\nimport typing as t\nimport typing_extensions\n'
+           'class a:\n    class B: pass\n    b = 0\nx = y = 0\n')
     exec(pre + src, ns)
     return inspect.signature(ns['f'])
 
@@ -102,12 +104,40 @@ def _describe(sig):
     return out
 
 
+def _all_args(fdef):
+    a = fdef.args
+    return a.posonlyargs + a.args + ([a.vararg] if a.vararg else []) + a.kwonlyargs + ([a.kwarg] if a.kwarg else [])
+
+
+def _unstring(node):
+    """expected display of an annotation: string annotations parsed (recursively), except inside Literal[...]"""
+    import ast
+    if node is None:
+        return None
+
+    class U(ast.NodeTransformer):
+        def visit_Subscript(self, n):
+            head = ast.unparse(n.value)
+            if head.split('.')[-1] == 'Literal':
+                return n
+            return self.generic_visit(n)
+
+        def visit_Constant(self, n):
+            if isinstance(n.value, str):
+                try:
+                    return self.visit(ast.parse(n.value, mode='eval').body)
+                except SyntaxError:
+                    return n
+            return n
+    return ast.dump(U().visit(ast.parse(ast.unparse(node), mode='eval').body))
+
+
 def _check(case):
     from replay import fixtures
     from pydoctor.templatewriter import pages
     from pydoctor.stanutils import flatten_text
     src = case['src']
-    system = fixtures.build_system([('sigmod', 'from typing import List, overload\n' + src, False)])
+    system = fixtures.build_system([('sigmod', 'from typing import List, overload, Literal\nimport typing as t\nimport typing_extensions\n' + src, False)])
     f = system.allobjects['sigmod.f']
     try:
         want = _sig_of_source(src)
@@ -135,6 +165,15 @@ def _check(case):
         if p.default is not inspect.Parameter.empty and repr(b.default) != repr(p.default):
             return {'observed': f'default of {p.name} displayed in {text!r} evaluates to {b.default!r}', 'required': f'{p.default!r}',
                     'class': 'default-value'}
+    # annotations: shown as written, string annotations unquoted (not the arguments of Literal)
+    fdef = ast.parse(src).body[-1]
+    back_def = ast.parse(f'def f{text}:\n    pass\n').body[0]
+    for a_src, a_back in zip(_all_args(fdef), _all_args(back_def)):
+        ws, wb = _unstring(a_src.annotation), (ast.dump(a_back.annotation) if a_back.annotation else None)
+        if ws != wb:
+            return {'observed': f'annotation of {a_src.arg} in {src.splitlines()[0]!r} is displayed as '
+                                f'{ast.unparse(a_back.annotation) if a_back.annotation else None!r}',
+                    'required': 'the annotation as written (strings unquoted)', 'class': 'annotation'}
     declared_ret = re.search(r'\) -> (.+):', src.splitlines()[0])
     if declared_ret and declared_ret.group(1) == 'None' and '->' in text:
         return {'observed': f'{text!r} shows a -> None return', 'required': 'omitted', 'class': 'return'}
